@@ -35,12 +35,32 @@ def attempt(g, mk):
 
 
 class Session:
-    def __init__(self, workdir, fmt, seed, order_seed):
+    def __init__(self, workdir, fmt, seed, order_seed, via="node"):
         self.g = Grid(workdir, num_servers=5, k=2, n=4, happy=2, seed=seed)
         self.g.policy = random.Random(order_seed)
         self.fmt = fmt
         self.events = []
         self.node = None
+        # via = "web": overwrite / in-place update / download go through the gateway's web API
+        # (PUT /uri/CAP, PUT /uri/CAP?offset=N, GET /uri/CAP), the production caller of MutableFileVersion.update
+        self.via = via
+        self.web = None
+        if via == "web":
+            from webgrid import WebGrid
+            self.web = WebGrid(grid=self.g)
+
+    def webreq(self, method, suffix="", body=None):
+        from webgrid import q
+        try:
+            r = self.web.request(method, "/uri/" + q(self.node.get_uri().decode("ascii")) + suffix, body=body)
+        except Hang:
+            self.g.pending = []
+            return "err", "Hang", b""
+        except Exception as e:
+            return "err", type(e).__name__, b""
+        if 200 <= r.code < 300 and not r.error:
+            return "ok", "", r.body
+        return "err", "HTTP%d" % r.code, r.body
 
     def close(self):
         self.g.close()
@@ -57,6 +77,10 @@ class Session:
         return st == "ok"
 
     def overwrite(self, data):
+        if self.web:
+            st, r, _b = self.webreq("PUT", "", bytes(data))
+            self.ev(ev="Overwrite", data=list(data), st=st, error=r)
+            return
         st, r = attempt(self.g, lambda: self.node.overwrite(MutableData(bytes(data))))
         self.ev(ev="Overwrite", data=list(data), st=st, error="" if st == "ok" else r)
 
@@ -73,6 +97,11 @@ class Session:
         self.ev(ev="Modify", m=m, st=st, error="" if st == "ok" else r)
 
     def update(self, data, off):
+        if self.web:
+            st, r, _b = self.webreq("PUT", "?offset=%d" % off, bytes(data))
+            self.ev(ev="Update", data=list(data), o=off, st=st, error=r)
+            return
+
         def mk():
             d = self.node.get_best_mutable_version()
             d.addCallback(lambda mv: mv.update(MutableData(bytes(data)), off))
@@ -81,6 +110,10 @@ class Session:
         self.ev(ev="Update", data=list(data), o=off, st=st, error="" if st == "ok" else r)
 
     def download(self):
+        if self.web:
+            st, r, body = self.webreq("GET")
+            self.ev(ev="Download", res=list(body) if st == "ok" else [], st=st, error=r)
+            return
         st, r = attempt(self.g, lambda: self.node.download_best_version())
         self.ev(ev="Download", res=list(r) if st == "ok" else [], st=st, error="" if st == "ok" else r)
 
@@ -143,7 +176,7 @@ def seeded_session(seed, idx, nops, workroot):
     # clean sessions avoid the inputs of the known defects and let the node see the size after every
     # size-changing modify/update (download), so that they are validated to the end
     clean = (idx % 4 != 1)
-    s = Session(os.path.join(workroot, "s%d" % idx), fmt, idx, rng.random())
+    s = Session(os.path.join(workroot, "s%d" % idx), fmt, idx, rng.random(), via="web" if idx % 5 == 3 else "node")
     try:
         size = rng.choice([0, 1, 5, 6, 7, 11, 12, 13, 18, 23, 24, 25, 30, 36, 47, 48])
         wid = 1
